@@ -636,6 +636,14 @@ M("r28-os-boundary-includes-header", ["C19", "C18"], "break",
 M("r28-boundary-from-local-benign", ["C19", "C18"], "benign",
   [("vlobject.c", "  vlo->vlo_boundary = vlo->vlo_start + vlo_length;\n}\n\n/* The following function implements macro `VLO_ADD_STRING'", "  vlo->vlo_boundary = new_vlo_start + vlo_length;\n}\n\n/* The following function implements macro `VLO_ADD_STRING'")])
 
+M("r27-set-table-hashed-by-core-only", ["C18"], "break",
+  [("yaep.c", "\t\t       set_core_dists_hash, set_core_dists_eq);", "\t\t       set_core_hash, set_core_dists_eq);")], "hash-covers-equality")
+M("r27-vlo-slack-from-addition-only", ["C18"], "break",
+  [("vlobject.c", "  vlo_length = VLO_LENGTH (*vlo) + additional_length;\n  vlo_length += vlo_length / 2 + 1;", "  vlo_length = VLO_LENGTH (*vlo) + additional_length;\n  vlo_length += additional_length / 2 + 1;")],
+  "_VLO_expand_memory/slack-grows-with-length")
+M("r27-vlo-doubling-benign", ["C18"], "benign",
+  [("vlobject.c", "  vlo_length = VLO_LENGTH (*vlo) + additional_length;\n  vlo_length += vlo_length / 2 + 1;", "  vlo_length = VLO_LENGTH (*vlo) + additional_length;\n  vlo_length = 2 * vlo_length + 1;")])
+
 # ---- R8 / R2f (C16, C19) ----------------------------------------------------------------------------
 M("r8-revert-F14", ["C19", "C16"], "break", [("hashtab.cpp", "		  entry_ptr = first_deleted_entry_ptr;\n		  *entry_ptr = EMPTY_ENTRY;", "		  entry_ptr = first_deleted_entry_ptr;\n		  *entry_ptr = DELETED_ENTRY;")], "find_hash_table_entry~")
 M("r2f-revert-F15", ["C19", "C16"], "break", [("hashtab.cpp", "  ::operator delete (new_htab);", "  yaep_free (new_htab->alloc, new_htab);")], "expand_hash_table/new")
